@@ -294,6 +294,25 @@ fn main() {
         }
     }
 
+    // 0b. the two literal writers of the builder driven directly (hook literal_generator_run) with request sizes of every kind:
+    //     the header served in pieces, one octet at a time, requests on and around the chunk size
+    {
+        let reqsets: Vec<Vec<usize>> = vec![vec![], vec![1], vec![2], vec![3, 1], vec![7], vec![8], vec![9], vec![5, 4], vec![1, 600], vec![511], vec![512], vec![513], vec![4, 1, 1, 1, 1, 9000]];
+        for fixed in [true, false] {
+            for n in [0usize, 1, 5, 185, 186, 505, 506, 507, 512, 1018, 1030, 8377, 8378, 9000] {
+                let data = body_for(&mut cx.rng, n);
+                for k in [9u32, 10] {
+                    if fixed && k != 9 { continue; }
+                    for reqs in &reqsets {
+                        let r = guarded(|| pgp::verif_hooks::literal_generator_run(fixed, 1 << k, &data, reqs));
+                        let imp = match r { Ok(Ok(o)) => hx(&o), Ok(Err(_)) => "ERR".into(), Err(p) => p };
+                        cx.out.case("litgen", &[(fixed as u8).to_string(), k.to_string(), hx(&data), nums(reqs)], &["litgen".into(), (fixed as u8).to_string(), k.to_string(), n.to_string(), nums(reqs)], &imp, None, if fixed { "literal-writer-fixed-requests" } else { "literal-writer-partial-requests" });
+                    }
+                }
+            }
+        }
+    }
+
     // 1. every tag x both formats x every length class, small bodies at class edges
     for tag in 0u8..64 {
         for &n in &[0usize, 1, 191, 192, 193, 255, 256, 8383, 8384] {
